@@ -145,6 +145,8 @@ pub enum BadGlyphKind {
     PathConversion(PathConversionError),
     Anchor(BadAnchor),
     BadDeltas(DeltaError),
+    /// The glyph uses itself as a component, directly or through other glyphs
+    ComponentCycle(Vec<GlyphName>),
     FrontendSpecific(String),
 }
 
@@ -286,6 +288,10 @@ impl std::fmt::Display for BadGlyphKind {
             BadGlyphKind::NoAxisPosition(axis) => write!(f, "no position on '{axis}' axis"),
             BadGlyphKind::Anchor(e) => write!(f, "bad anchor: '{e}'"),
             BadGlyphKind::BadDeltas(e) => write!(f, "delta error: '{e}'"),
+            BadGlyphKind::ComponentCycle(path) => {
+                let path = path.iter().map(|n| n.as_str()).collect::<Vec<_>>();
+                write!(f, "component cycle: {}", path.join(" -> "))
+            }
             BadGlyphKind::FrontendSpecific(e) => write!(f, "{}", e),
         }
     }
